@@ -748,6 +748,7 @@ int main(int argc, char **argv)
                 c.x = X_DEPTH3; add_case(c);
                 c.x = X_WRONGKEY; add_case(c);
                 c.x = X_NOANCHOR; add_case(c);
+                c.x = X_NOANCHOR_ROOTSENT; add_case(c);
                 if (v == 0)
                 {
                     c.x = X_WRONGNAME; add_case(c);
